@@ -321,6 +321,8 @@ func (c *Ctx) deadlineRenewalRule(rule string) {
 				"the read deadline is renewed in the connection loop outside the peer-activity arm (e.g. on every iteration or on outbound requests): a client that keeps sending never detects a silent peer")
 		case fn.Signature.Recv() != nil && fn.Name() == "Read" && fn.Signature.Params().Len() == 1:
 			c.ok(rule, construct, c.ipos(s), "during a slow inbound read")
+		case c.isControlFrameHandler(fn):
+			c.ok(rule, construct, c.ipos(s), "in a pong/ping handler (peer activity)")
 		default:
 			writes := false
 			for _, g := range withAnon(outermost(fn)) {
@@ -342,4 +344,25 @@ func (c *Ctx) deadlineRenewalRule(rule string) {
 	if n == 0 {
 		c.und(rule, "read-deadline renewal", "-", "no static call of the deadline-renewal function found")
 	}
+}
+
+// isControlFrameHandler: fn is a function literal installed with SetPongHandler/SetPingHandler.
+func (c *Ctx) isControlFrameHandler(fn *ssa.Function) bool {
+	for _, ci := range gorillaConnCalls(c.P) {
+		m := methodOf(ci)
+		if m != "SetPongHandler" && m != "SetPingHandler" {
+			continue
+		}
+		switch x := ci.Common().Args[1].(type) {
+		case *ssa.MakeClosure:
+			if x.Fn == ssa.Value(fn) {
+				return true
+			}
+		case *ssa.Function:
+			if x == fn {
+				return true
+			}
+		}
+	}
+	return false
 }
